@@ -49,6 +49,11 @@ REGISTRY = {
                 undecided=['pattern converges to ideal ground as conductivity grows (limit; vectorised Fresnel branch)',
                            'splitting a medium / adding a far medium leaves the pattern unchanged (vectorised Fresnel branch) -- native sweep only'],
                 trusted=['call graph over-approximated by method name and arity']),
+    'C13': dict(module='contracts.C13', level='other',
+                native=native_sweep('c13_segments.py', 'equal / tapered (types 1,2,3, min/max limits, growth <= 2.1, mirror) segmentation, arc and helix points, transformations through main() vs. independently transformed coordinates', 250, 6000),
+                undecided=[],
+                trusted=['cos^2+sin^2=1, cos 0 = 1, sin 0 = 0, sqrt axioms; np.array of an unbounded list of rows keeps the rows',
+                         'taper1/taper2 (search loops over k with for-else) and Helix.__init__ are NOT under contract: bounded stand-in only']),
     'C14': dict(module='contracts.C14', level='proof',
                 native=native_sweep('c14_history.py', 'sweep step == fresh run (every load kind, radii at the small-radius threshold), far/near order and repetition, compute twice, two processes with different hash seeds byte-identical (report and option file)', 12, 300),
                 undecided=['byte-identity of numpy/LAPACK/scipy results across processes is assumed (deterministic library functions)'],
